@@ -420,7 +420,7 @@ func init() {
 		Title: "Condition flags describe exactly what happened to the result",
 		Rule:  "every (operation x operands x context) point is executed with an empty trap set and its Condition compared bit-for-bit (Inexact, Subnormal, Underflow, Overflow, DivisionByZero, DivisionUndefined, DivisionImpossible, InvalidOperation) with the flags the reference model derives from the exact result; Rounded/Clamped through implications only; non-trivial = reference expects at least one flag; special operands (NaN/sNaN with signs and payloads, clean and dirty infinities, signed zeros, 1, 7) through every operation of the property against the special-value table (value and exact flags)",
 		Bounds: func(tier string) string {
-			return buildArithSpace(tier, 0).Desc + "; ops Add,Sub,Mul,Quo,QuoInteger,Rem on X x Y; Round,Reduce,RoundToIntegralExact,Sqrt,Quantize(exp in [-4,4] quick / [-7,7] thorough) on U; Sqrt additionally on DENSE(3|4) x 10 exponents + SHAPE(10|14) at p in {1..9,16}"
+			return buildArithSpace(tier, 0).Desc + "; ops Add,Sub,Mul,Quo,QuoInteger,Rem on X x Y; Round,Reduce,RoundToIntegralExact,Sqrt,Quantize(exp in [-4,4] quick / [-7,7] thorough) on U; Sqrt additionally on DENSE(3|4) x 10 exponents + SHAPE(10|14) at p in {1..9,16}; WIDE-EDGE block: 8x8 coefficient pairs of 10..21 digits x precision {n-1,n,n+1,60} (n = digits of the exact product) x 3 modes x MinExponent and MaxExponent placed -2..+2 steps around the product's adjusted exponent x the six binary operations"
 		},
 		Run:    c02Run,
 		Replay: c02Replay,
